@@ -86,13 +86,58 @@ var formats = []format{
 	{"cdx-xml", "x.cdx.xml"},
 }
 
+// altName is an alternative output file name an importer accepts.
+type altName struct{ File, Why string }
+
+// altNames: per output format, the other spellings of the file name that the matching importer
+// accepts. "tested" = the spelling (or its pattern with exactly this casing rule) is in the
+// extractor's own FileRequired test table; "by analogy" = same pattern family, other casing
+// (see the assumption recorded in the evidence file). Not claimed: .spdx.yaml (not in
+// extensionHandlers), *.bom.json (tested as NOT required), .spdx.rdf (we do not write RDF).
+var altNames = map[string][]altName{
+	"cdx-json": {
+		{"bom.json", "tested: cdx_test.go bom.json"},
+		{"sbom.cdx.JSON", "tested: cdx_test.go sbom.cdx.JSON"},
+		{"sbom.cDX.json", "tested: cdx_test.go sbom.cDX.json"},
+		{"sub.dir-name.cdx.json", "tested pattern *.cdx.json"},
+		{"BOM.json", "by analogy: bom.json, case-insensitive like *.cdx.json"},
+		{"Bom.Json", "by analogy: bom.json, case-insensitive like *.cdx.json"},
+	},
+	"cdx-xml": {
+		{"bom.xml", "tested: cdx_test.go bom.xml"},
+		{"sbom.cdx.xml", "tested: cdx_test.go sbom.cdx.xml"},
+		{"sbom.CDX.XML", "by analogy: *.cdx.xml, case-insensitive like *.cdx.json"},
+		{"BOM.XML", "by analogy: bom.xml, case-insensitive like *.cdx.json"},
+		{"bom.XML", "by analogy: bom.xml, case-insensitive like *.cdx.json"},
+	},
+	"spdx23-json": {
+		{"sbom.spdx.json", "tested: spdx_test.go sbom.spdx.json"},
+		{"sbom.SPDX.JSON", "by analogy: *.spdx.json, case-insensitive like *.spdx"},
+	},
+	"spdx23-yaml": {
+		{"sbom.spdx.yml", "tested: spdx_test.go sbom.spdx.yml"},
+		{"sbom.Spdx.YML", "by analogy: *.spdx.yml, case-insensitive like *.spdx"},
+	},
+	"spdx23-tag-value": {
+		{"sbom.spdx", "tested: spdx_test.go sbom.spdx"},
+		{"sbom.SPDX", "tested: spdx_test.go sbom.SPDX"},
+		{"sbom.SpDx", "tested: spdx_test.go sbom.SpDx"},
+	},
+}
+
 // poolItem is one package of the pool. U == nil: the package without PURL.
 type poolItem struct {
 	Shape string           `json:"shape"`
 	Type  string           `json:"type"`
 	U     *purl.PackageURL `json:"purl"`
 	Loc   string           `json:"location"`
+	// Meta "cdx" / "spdx": the package is one the library's own SBOM extractor emitted (re-export
+	// of an imported SBOM): Extractor = sbom/cdx or sbom/spdx, Metadata = its Metadata{PURL, CPEs}.
+	Meta string   `json:"sbom_metadata,omitempty"`
+	CPEs []string `json:"cpes,omitempty"`
 }
+
+const cpe = "cpe:2.3:a:vendor:pkg:1.0:*:*:*:*:*:*:*"
 
 const specialName = `a b+c@d&e<f"g:h#i`
 
@@ -160,6 +205,18 @@ func repaired(p poolItem) *poolItem {
 var poolEx = harvest.PoolExtractor{}
 
 func (p poolItem) pkg() *extractor.Package {
+	var up *purl.PackageURL
+	name, version := "cpe only", "0.2"
+	if p.U != nil {
+		u := *p.U
+		up, name, version = &u, u.Name, u.Version
+	}
+	switch p.Meta {
+	case "cdx":
+		return &extractor.Package{Name: name, Version: version, Locations: []string{"dir/in.cdx.json"}, Extractor: cdxe.New(), Metadata: &cdxe.Metadata{PURL: up, CPEs: append([]string(nil), p.CPEs...)}}
+	case "spdx":
+		return &extractor.Package{Name: name, Version: version, Locations: []string{"dir/in.spdx.json"}, Extractor: spdxe.New(), Metadata: &spdxe.Metadata{PURL: up, CPEs: append([]string(nil), p.CPEs...)}}
+	}
 	if p.U == nil {
 		return &extractor.Package{Name: "no purl <&>", Version: "0.1", Locations: []string{"dir/nopurl"}, Extractor: poolEx}
 	}
@@ -322,6 +379,7 @@ func roundTrip(inv []poolItem, f format, dir string) (o outcome) {
 type replay struct {
 	Format    string     `json:"format"`
 	Inventory []poolItem `json:"inventory"`
+	File      string     `json:"file_name,omitempty"` // "" = the default name of the format
 }
 
 func scratchRoot() string {
@@ -356,10 +414,13 @@ func doReplay(file string) {
 			f = x
 		}
 	}
+	if rec.Replay.File != "" {
+		f.File = rec.Replay.File
+	}
 	o := roundTrip(rec.Replay.Inventory, f, root+"/replay")
 	os.RemoveAll(root)
 	out, _ := json.MarshalIndent(o, "", " ")
-	fmt.Printf("replay %s format=%s inventory=%d packages\n%s\n", rec.Key, f.Name, len(rec.Replay.Inventory), out)
+	fmt.Printf("replay %s format=%s file=%s inventory=%d packages\n%s\n", rec.Key, f.Name, f.File, len(rec.Replay.Inventory), out)
 	if !o.ok() {
 		fmt.Println("reproduced: inventory, written document and read-back PURL multisets are not all equal")
 		os.Exit(1)
@@ -454,9 +515,26 @@ func main() {
 			}
 		}
 	}
+	// packages as the SBOM extractors themselves emit them: PURL and CPE together
+	for _, t := range types {
+		for _, meta := range []string{"cdx", "spdx"} {
+			it := poolItem{Shape: "sbom-" + meta + "-purl+cpe", Type: t, U: &purl.PackageURL{Type: t, Name: "pkg", Version: "1.0"}, Meta: meta, CPEs: []string{cpe}}
+			rp := repaired(it)
+			if rp == nil {
+				excluded = append(excluded, t+":"+it.Shape)
+				continue
+			}
+			P = append(P, *rp)
+			typesWithShape[it.Shape]++
+			if t == purl.TypeGeneric || t == purl.TypeDebian {
+				Q = append(Q, *rp)
+			}
+		}
+	}
 	nopurl := poolItem{Shape: "no-purl"}
-	P = append(P, nopurl)
-	Q = append(Q, nopurl)
+	cpeOnly := poolItem{Shape: "sbom-cdx-cpe-only", Meta: "cdx", CPEs: []string{cpe}}
+	P = append(P, nopurl, cpeOnly)
+	Q = append(Q, nopurl, cpeOnly)
 	r.Set("pool", map[string]any{"P": len(P), "Q": len(Q), "shapes": len(shapes("generic")), "types": len(types), "excluded_spec_invalid": excluded})
 
 	// enumeration, simplest first
@@ -558,7 +636,7 @@ func main() {
 	singleFail := map[string]string{} // format|purl-or-shape -> key
 	idOf := func(p poolItem) string {
 		if p.U == nil {
-			return "no-purl"
+			return p.Shape
 		}
 		return p.Type + "|" + p.Shape
 	}
@@ -635,7 +713,7 @@ func main() {
 		if len(inv) == 1 {
 			singleExFail[family(f)+"|"+idOf(inv[0])] = k
 		}
-		r.Violation(k, fmt.Sprintf("%s, inventory %q: PURLs expected back %q, but the document built by the converter holds %q (missing %q, extra %q)", f.Name, purlsOf(inv), o.Inv, o.Expected, o.ExpLost, o.ExpSpur), replay{f.Name, inv})
+		r.Violation(k, fmt.Sprintf("%s, inventory %q: PURLs expected back %q, but the document built by the converter holds %q (missing %q, extra %q)", f.Name, purlsOf(inv), o.Inv, o.Expected, o.ExpLost, o.ExpSpur), replay{Format: f.Name, Inventory: inv})
 	}
 	for i, o := range res1 {
 		if o != nil && o.Panic == "" && !o.exOK() {
@@ -655,7 +733,7 @@ func main() {
 			} else if o.WriteErr != "" {
 				k = "export-failed:" + f.Name + ":empty-inventory"
 			}
-			r.Violation(k, fmt.Sprintf("%s, empty inventory: %+v", f.Name, *o), replay{f.Name, nil})
+			r.Violation(k, fmt.Sprintf("%s, empty inventory: %+v", f.Name, *o), replay{Format: f.Name})
 			continue
 		}
 		p := P[j.inv[0]]
@@ -684,7 +762,7 @@ func main() {
 		if o.ReadFail != "" {
 			what += " importer: " + o.ReadFail
 		}
-		r.Violation(k, what, replay{f.Name, get(j)})
+		r.Violation(k, what, replay{Format: f.Name, Inventory: get(j)})
 	}
 	for i, o := range res1 {
 		if o != nil && i%(len(res1)/5+1) == 7 {
@@ -692,6 +770,60 @@ func main() {
 		}
 	}
 	if done1 < len(jobs1) {
+		finish("SBOM export -> own importer round trip preserves the PURL multiset", false)
+	}
+
+	// phase 1b: the output file NAME is the exporter's (user's) choice; vary it over the spellings
+	// the importers accept, for every single-package inventory over Q and one three-package
+	// inventory. Only inventories whose default-name run was exact are judged (else the cause is
+	// already reported).
+	type njob struct {
+		inv  []int // into Q
+		f    int
+		name altName
+	}
+	var jobsN []njob
+	triple := []int{0, len(Q) / 2, len(Q) - 2}
+	for f, fm := range formats {
+		for _, an := range altNames[fm.Name] {
+			for i := range Q {
+				jobsN = append(jobsN, njob{[]int{i}, f, an})
+			}
+			jobsN = append(jobsN, njob{triple, f, an})
+		}
+	}
+	resN := make([]*outcome, len(jobsN))
+	resD := make([]*outcome, len(jobsN)) // same inventory under the default name
+	doneN := r.ParallelFor(len(jobsN), func(i int) {
+		j := jobsN[i]
+		inv := get(job{j.inv, true, j.f})
+		d := roundTrip(inv, formats[j.f], nextDir())
+		o := roundTrip(inv, format{formats[j.f].Name, j.name.File}, nextDir())
+		r.Evals.Add(1)
+		if len(o.Inv) > 0 {
+			r.Distinct(formats[j.f].Name + "|" + j.name.File + "|" + strings.Join(o.Inv, " "))
+		}
+		resN[i], resD[i] = &o, &d
+	})
+	nameStats := map[string]int{}
+	for i, o := range resN {
+		if o == nil || resD[i] == nil || !resD[i].ok() {
+			continue
+		}
+		j := jobsN[i]
+		nameStats[formats[j.f].Name+" -> "+j.name.File]++
+		if o.ok() {
+			continue
+		}
+		inv := get(job{j.inv, true, j.f})
+		r.Violation("filename:"+formats[j.f].Name+":"+j.name.File,
+			fmt.Sprintf("%s written as %q (%s), inventory %q: expected back %q, scan returned %q; the same inventory written as %q is read back exactly. importer: %s%s%s",
+				formats[j.f].Name, j.name.File, j.name.Why, purlsOf(inv), o.Inv, o.Got, formats[j.f].File, o.ReadFail, o.WriteErr, o.Panic),
+			replay{Format: formats[j.f].Name, Inventory: inv, File: j.name.File})
+	}
+	r.Set("file_names_judged", nameStats)
+	r.Assume("file names: spellings marked 'by analogy' (upper-case variants of bom.json/bom.xml, .cdx.xml, .spdx.json, .spdx.yml) assume the importers match ALL their patterns case-insensitively; the extractors' own tests establish that only for *.cdx.json (sbom.cdx.JSON, sbom.cDX.json) and *.spdx (sbom.SPDX, sbom.SpDx), the rest follows from the single ToLower-based matcher they share")
+	if doneN < len(jobsN) {
 		finish("SBOM export -> own importer round trip preserves the PURL multiset", false)
 	}
 
@@ -799,7 +931,7 @@ func main() {
 			}
 		}
 		ps := purlsOf(inv)
-		r.Violation(key, fmt.Sprintf("%s, inventory %q: document holds %q, scan of %s returned %q (lost %q, spurious %q) %s%s", f.Name, ps, fl.o.Expected, f.File, fl.o.Got, fl.o.Lost, fl.o.Spurious, fl.o.Panic, fl.o.WriteErr), replay{f.Name, inv})
+		r.Violation(key, fmt.Sprintf("%s, inventory %q: document holds %q, scan of %s returned %q (lost %q, spurious %q) %s%s", f.Name, ps, fl.o.Expected, f.File, fl.o.Got, fl.o.Lost, fl.o.Spurious, fl.o.Panic, fl.o.WriteErr), replay{Format: f.Name, Inventory: inv})
 	}
 	finish("SBOM export (SPDX 2.3 json/yaml/tag-value, CycloneDX json/xml) -> file -> own SBOM extractors: PURL multiset read back == PURL multiset of the inventory's PURL-bearing packages (export: inventory == document; roundtrip: document == read back), canonical forms", done2 == len(jobs2))
 }
